@@ -21,8 +21,8 @@ def WPc.registered : WPc → Bool
 
 /-- Run holds the pool's write lock (inside updateBest) -/
 def _root_.Tongo.PoolSM.RunPc.lockW : RunPc → Bool
-  | .ubRead _ _ => true
-  | .ubSel _ _ _ => true
+  | .ubRead _ _ _ => true
+  | .ubSel _ _ _ _ => true
   | .nLoop sw _ _ => sw
   | .nPut sw _ _ _ _ => sw
   | _ => false
